@@ -917,3 +917,149 @@ def api_specs(rng, per_point):
             for t in rng.sample(API_TEXTS, min(per_point, len(API_TEXTS))):
                 specs.append({"api": api, "text": cps(t), "kind": kind})
     return specs
+
+
+# ---------------------------------------------------------------------------- one response object, several sends
+class ReIterable:
+    """a body that can be iterated again and again and counts its close() calls"""
+
+    def __init__(self, items):
+        self._items = items
+        self.closed = 0
+
+    def __iter__(self):
+        return iter(self._items)
+
+    def close(self):
+        self.closed += 1
+
+
+class ReusableFile(io.BytesIO):
+    """file object whose close() only counts (a really closed file cannot be sent again)"""
+    closes = 0
+
+    def close(self):
+        self.closes += 1
+
+
+def reuse_case(case):
+    """case = {shape: str|list|reiter|iter|gen|file, pt, ncb, items, events: [{ev: send, via, method} | {ev: with} |
+    {ev: status, code} | {ev: make_sequence}]}.  One Response object; after every event the callback counts and the
+    body's own close count are recorded; every send is iterated fully and closed like a WSGI server does."""
+    from werkzeug.wrappers import Response
+    from werkzeug.wsgi import wrap_file
+
+    counts = [0] * case["ncb"]
+    items = [_item(it) for it in case["items"]]
+    shape = case["shape"]
+    probe = lambda: 0  # noqa: E731
+    closable = True
+    if shape == "str":
+        body, closable = items[0], False
+    elif shape == "list":
+        body, closable = list(items), False
+    elif shape == "reiter":
+        body = ReIterable(items)
+        probe = lambda: body.closed  # noqa: E731
+    elif shape == "iter":
+        body = ClosableIter(items)
+        probe = lambda: body.closed  # noqa: E731
+    elif shape == "gen":
+        def g():
+            yield from items
+        body, closable = g(), False
+    else:
+        f = ReusableFile(items[0])
+        body = wrap_file(environ_for("GET"), f)
+        probe = lambda: f.closes  # noqa: E731
+    resp = Response(body, direct_passthrough=case["pt"])
+    for k in range(case["ncb"]):
+        def cb(k=k):
+            counts[k] += 1
+        resp.call_on_close(cb)
+    code = 200
+    events = []
+    for ev in case["events"]:
+        rec = {"ev": ev["ev"], "via": ev.get("via", ""), "method": ev.get("method", ""), "code": code,
+               "out": {"exc": "", "headers": [], "body": [], "allbytes": True}}
+        try:
+            if ev["ev"] == "send":
+                env = environ_for(ev["method"])
+                if ev["via"] == "call":
+                    got = {}
+
+                    def start_response(status, headers, exc_info=None):
+                        got["headers"] = headers
+                    app_iter = resp(env, start_response)
+                    headers = got["headers"]
+                elif ev["via"] == "app_iter":
+                    headers = resp.get_wsgi_headers(env).to_wsgi_list()
+                    app_iter = resp.get_app_iter(env)
+                else:
+                    app_iter, _, headers = resp.get_wsgi_response(env)
+                rec["out"]["headers"] = hlist(headers)
+                chunks = list(app_iter)
+                if hasattr(app_iter, "close"):
+                    app_iter.close()
+                rec["out"]["allbytes"] = all(type(c) is bytes for c in chunks)
+                rec["out"]["body"] = list(b"".join(c if isinstance(c, (bytes, bytearray)) else str(c).encode("utf-8", "replace") for c in chunks))
+            elif ev["ev"] == "with":
+                with resp:
+                    pass
+            elif ev["ev"] == "status":
+                resp.status_code = code = ev["code"]
+                rec["code"] = code
+            elif ev["ev"] == "make_sequence":
+                resp.make_sequence()
+            else:
+                raise ValueError(ev["ev"])
+        except Exception as e:  # recorded, judged by TLC
+            rec["out"]["exc"] = type(e).__name__
+        rec["cb"] = list(counts)
+        rec["ic"] = probe()
+        events.append(rec)
+    return {"op": "reuse", "shape": shape, "pt": case["pt"], "ncb": case["ncb"], "closable": closable, "events": events}
+
+
+REUSE_SEQS = [["GET", "GET"], ["GET", "HEAD"], ["HEAD", "GET", "POST"], ["GET", "GET", "GET"], ["GET", 204, "GET"],
+              ["GET", 304, "HEAD", 200, "GET"], ["POST", 204, "HEAD", "GET"]]
+REUSE_BODIES = [("str", False), ("list", False), ("reiter", False), ("reiter", True), ("iter", False), ("iter", True),
+                ("gen", False), ("gen", True), ("file", True)]
+
+
+def reuse_cases(rng, extra_random=0):
+    cases = []
+    vias = [["wsgi"], ["call"], ["app_iter"], ["wsgi", "call", "app_iter"], ["app_iter", "wsgi"]]
+    bx, se = {"k": "b", "v": [195, 120]}, {"k": "s", "v": [233]}
+
+    def build(seq, shape, pt, ncb, withs, via, mkseq):
+        evs, n = [], 0
+        if mkseq:
+            evs.append({"ev": "make_sequence"})
+        for x in seq:
+            if isinstance(x, int):
+                evs.append({"ev": "status", "code": x})
+                continue
+            if n and withs:
+                evs.append({"ev": "with"})
+            evs.append({"ev": "send", "via": via[n % len(via)], "method": x})
+            n += 1
+        items = [bx] if shape in ("file",) else [se] if shape == "str" else [bx, bx] if pt else [se, bx]
+        return {"shape": shape, "pt": pt, "ncb": ncb, "items": items, "events": evs}
+    n = 0
+    for seq in REUSE_SEQS:
+        for shape, pt in REUSE_BODIES:
+            for ncb in (0, 1, 2):
+                for withs in (False, True):
+                    n += 1
+                    cases.append(build(seq, shape, pt, ncb, withs, vias[n % len(vias)], False))
+                    if shape in ("reiter", "iter", "gen") and not pt and withs:
+                        cases.append(build(seq, shape, pt, ncb, False, vias[(n + 1) % len(vias)], True))
+    for _ in range(extra_random):
+        shape, pt = rng.choice(REUSE_BODIES)
+        seq = [rng.choice(["GET", "HEAD", "POST", "GET", 200, 204, 304, 404]) for _ in range(rng.randint(2, 7))]
+        if not any(isinstance(x, str) for x in seq):
+            seq.append("GET")
+        cases.append(build(seq, shape, pt, rng.randint(0, 3), rng.random() < 0.5, rng.choice(vias),
+                           shape in ("reiter", "iter", "gen") and not pt and rng.random() < 0.3))
+    return cases
